@@ -175,6 +175,34 @@ def constructed(rng):
         add(op, l, r, n)
         if op == "divr" and n == 0 and rng.random() < 0.5:
             add("quant", l, r)
+    # --- products whose cut-off digits are a tie (or zero) plus a non-zero multiple of 2^32 / 2^64 / 2^96: "something
+    #     non-zero follows" judged from a truncated word; cut of 2..36 digits
+    for p_ in range(2, 37):
+        for d_ in (5, 0):
+            for w_ in (32, 64, 96):
+                if (1 << w_) >= P10[p_ - 1]:
+                    continue
+                j_ = rng.randrange(1, max(2, min(1 << 20, P10[p_ - 1] >> w_)))
+                q_ = rng.getrandbits(rng.randrange(1, 30))
+                x_ = q_ * P10[p_] + d_ * P10[p_ - 1] + (j_ << w_)
+                y_ = rng.choice((1, 1, 2, 3, 7))
+                if x_ % y_ or x_ // y_ > M:
+                    y_ = 1
+                if x_ > M:
+                    continue
+                for _try in range(30):
+                    a_, b_ = rng.randrange(0, 19), rng.randrange(0, 19)
+                    n_ = a_ + b_ - p_
+                    if 0 <= n_ <= 18:
+                        sg_ = rng.choice((1, -1))
+                        add("mulr", G.fD(sg_ * (x_ // y_), a_), G.fD(y_, b_), n_)
+                        add("mulr", G.fD(y_, b_), G.fD(-sg_ * (x_ // y_), a_), n_)
+                        break
+    #     ... and the same for products beyond i128 (the wide kernel), see common.wide_tie_word_products
+    for x_, a_, y_, b_, n_ in C.wide_tie_word_products(rng):
+        sg_ = rng.choice((1, -1))
+        add("mulr", G.fD(sg_ * x_, a_), G.fD(y_, b_), n_)
+        add("mulr", G.fD(y_, b_), G.fD(-sg_ * x_, a_), n_)
     # --- quotient-digit estimate of 2^64 + 1 in the 256/128-bit division (vf/knuth.py)
     for r_ in K.est_gt_b_requests(rng, 25, G.fD)[0]:
         t_ = r_.split()
